@@ -663,6 +663,97 @@ def sqfsdiff_stage(tools, work, rep, ev, tier, rng):
     if n < len(cases) // 2:
         print("SELF-CHECK-FAILED: only %d of %d sqfsdiff cases ran" % (n, len(cases)))
         return None
+    sn = superdiff_part(tools, work, rep, ev)
+    if sn is None:
+        return None
+    return n + sn
+
+
+def superdiff_part(tools, work, rep, ev):
+    """spec/SuperDiff.tla: `sqfsdiff --super` on every pair of images of ONE tree packed under different options (block size, compressor,
+    compressor options, exportable, padding, xattrs off): report lines and status against the model evaluated by TLC on the super blocks the
+    independent decoder reads; `--extract`: exactly the differing files appear below old/ and new/.  Drift = note, crash = alarm."""
+    cfg = work + "/sup.cfg"
+    INV = ["StatusIffDifferent", "Mirror", "NeverSilent"]
+    write_cfg(cfg, init="Init", nxt="Next", constants={"Emit": False, "HeaderOnlyWhenPrinted": False}, defs={"Pairs": "<<>>"}, invariants=INV, deadlock=False)
+    r = run_tlc("SuperDiff", cfg, workers=4, timeout=600)
+    ev.tlc(r, "SuperDiff (abstract domain)")
+    if not r["ok"]:
+        print("MODEL-FAILURE: SuperDiff violates %s" % r["violated"])
+        return None
+    write_cfg(cfg, init="Init", nxt="Next", constants={"Emit": False, "HeaderOnlyWhenPrinted": True}, defs={"Pairs": "<<>>"}, invariants=INV, deadlock=False)
+    r = run_tlc("SuperDiff", cfg, workers=4, timeout=600)
+    ev.tlc(r, "dev SuperDiff HeaderOnlyWhenPrinted")
+    if r["violated"] != "NeverSilent":
+        print("SELF-CHECK-FAILED: SuperDiff deviation without counterexample")
+        return None
+    d = work + "/sup"
+    os.makedirs(d + "/t/sub", exist_ok=True)
+    open(d + "/t/f1", "wb").write(b"abc" * 3000)
+    open(d + "/t/sub/f2", "wb").write(b"tail")
+    optsets = [[], ["-b", "8192"], ["-c", "xz"], ["-c", "gzip", "-X", "level=3"], ["-e"], ["-B", "8192"], ["-c", "zstd"], ["--defaults", "mtime=77"], ["-T"]]
+    imgs = []
+    for k, o in enumerate(optsets):
+        p = "%s/i%d.sqfs" % (d, k)
+        rc, out, er = sh([tools + "/gensquashfs", "-q", "-f", "-b", "4096"] + o + ["-D", d + "/t", p], timeout=60)
+        if rc:
+            raise RuntimeError("superdiff: cannot pack %s: %s" % (o, er[-200:]))
+        imgs.append(p)
+
+    def rec(p):
+        sp = sqfsimg.load(p).super
+        off = lambda v: '"none"' if v == 0xFFFFFFFFFFFFFFFF else '"%d"' % v
+        flags = "{" + ", ".join(str(i) for i in range(16) if sp["flags"] >> i & 1) + "}"
+        return ('[inodes |-> %d, mtime |-> %d, bs |-> %d, blog |-> %d, frags |-> %d, ids |-> %d, comp |-> %d, flags |-> %s, used |-> %d, root |-> %s, idt |-> %s, '
+                'xat |-> %s, ino |-> %s, dir |-> %s, frt |-> %s, exp |-> %s, rest |-> "v%d.%d"]'
+                % (sp["inode_count"], sp["mtime"], sp["block_size"], sp["block_log"], sp["frag_count"], sp["id_count"], sp["comp_id"], flags, sp["bytes_used"],
+                   off(sp["root"]), off(sp["id_tbl"]), off(sp["xattr_tbl"]), off(sp["inode_tbl"]), off(sp["dir_tbl"]), off(sp["frag_tbl"]), off(sp["export_tbl"]), sp["vmaj"], sp["vmin"]))
+    recs = [rec(p) for p in imgs]
+    pairs = [(i, j) for i in range(len(imgs)) for j in range(len(imgs))]
+    write_cfg(cfg, init="Init", nxt="Next", constants={"Emit": True, "HeaderOnlyWhenPrinted": False},
+              defs={"Pairs": "<<" + ", ".join("<<%s, %s>>" % (recs[i], recs[j]) for i, j in pairs) + ">>"}, invariants=INV + ["EmitOK"], deadlock=False)
+    r = run_tlc("SuperDiff", cfg, workers=4, timeout=600)
+    emitted = bpbind.parse_emitted(r["out"])
+    if not r["ok"] or len(emitted) < len(set((recs[i], recs[j]) for i, j in pairs)) - 1:
+        print("SELF-CHECK-FAILED: SuperDiff on the concrete pairs: %s, %d reports" % (r["violated"], len(emitted)))
+        return None
+
+    def key(sp):
+        return (sp["inodes"], sp["mtime"], sp["bs"], sp["comp"], tuple(sorted(sp["flags"])), sp["used"], sp["root"], sp["idt"], sp["ino"], sp["dir"], sp["frt"], sp["exp"], sp["xat"])
+    want = {(key(e["a"]), key(e["b"])): e["r"] for e in emitted}
+    n, drift, crashed = 0, [], False
+    for i, j in pairs:
+        rc, out, er = sh([tools + "/sqfsdiff", "-S", "-a", imgs[i], "-b", imgs[j]], timeout=30)
+        if b"ERROR: AddressSanitizer" in er or rc < 0 or rc >= 124:
+            if not crashed:
+                crashed = True
+                rep.violation("reader-disagrees", "sqfsdiff --super on two images gensquashfs just wrote (%s / %s) ends with status %s: %s" % (optsets[i], optsets[j], rc, er[-300:].decode(errors="replace")))
+            continue
+        n += 1
+        sa, sb = sqfsimg.load(imgs[i]).super, sqfsimg.load(imgs[j]).super
+        conv = lambda sp: dict(inodes=sp["inode_count"], mtime=sp["mtime"], bs=sp["block_size"], comp=sp["comp_id"], flags=[k for k in range(16) if sp["flags"] >> k & 1], used=sp["bytes_used"],
+                               **{k2: ("none" if sp[k1] == 0xFFFFFFFFFFFFFFFF else str(sp[k1])) for k1, k2 in (("root", "root"), ("id_tbl", "idt"), ("inode_tbl", "ino"), ("dir_tbl", "dir"), ("frag_tbl", "frt"), ("export_tbl", "exp"), ("xattr_tbl", "xat"))})
+        w = want.get((key(conv(sa)), key(conv(sb))))
+        got = [l for l in out.decode(errors="replace").split("\n") if l.strip()]
+        if w is None or rc != w["status"] or got != list(w["lines"]):
+            drift.append((optsets[i], optsets[j], rc, got[:6], w))
+    # --extract: two trees that differ in one file
+    open(d + "/t/f1", "wb").write(b"abd" * 3000)
+    rc, out, er = sh([tools + "/gensquashfs", "-q", "-f", "-b", "4096", "-D", d + "/t", d + "/changed.sqfs"], timeout=60)
+    ex = d + "/ex"
+    rc, out, er = sh([tools + "/sqfsdiff", "-a", imgs[0], "-b", d + "/changed.sqfs", "-e", ex], timeout=30)
+    if b"ERROR: AddressSanitizer" in er or rc < 0 or rc >= 124:
+        rep.violation("reader-disagrees", "sqfsdiff --extract ends with status %s: %s" % (rc, er[-300:].decode(errors="replace")))
+    else:
+        n += 1
+        found = sorted(os.path.relpath(os.path.join(dp, f), ex) for dp, dn, fn in os.walk(ex) for f in fn)
+        okc = found == ["new/f1", "old/f1"] and open(ex + "/old/f1", "rb").read() == b"abc" * 3000 and open(ex + "/new/f1", "rb").read() == b"abd" * 3000
+        if rc != 1 or not okc:
+            drift.append(("extract", rc, found))
+    ev.set("sqfsdiff_super_pairs", n)
+    ev.set("sqfsdiff_super_drift", len(drift))
+    if drift:
+        print("SPEC-DRIFT (no alarm): %d sqfsdiff --super / --extract results differ from SuperDiff.tla, e.g. %s" % (len(drift), json.dumps(drift[0], default=str)[:500]))
     return n
 
 
